@@ -196,8 +196,8 @@ def scopes(tier: str) -> List[dict]:
     if tier == "thorough":
         out.append({"what": "K=4 versions, 2 rules, limits 1..4, all phase/fix-compatibility assignments (1/16 of the behaviours replayed)",
                     "c": {**base, "K": 4, "NR": 2, "Limits": {1, 2, 3, 4}, "EmitMod": 16}})
-        out.append({"what": "K=3 versions, 3 fix-compatible rules, limits 2..3, all phase assignments (1/16 of the behaviours replayed)",
-                    "c": {**base, "K": 3, "NR": 3, "Limits": {2, 3}, "Compats": {True}, "EmitMod": 16}})
+        out.append({"what": "K=3 versions, 3 fix-compatible rules, limit 3, all phase assignments (1/64 of the behaviours replayed)",
+                    "c": {**base, "K": 3, "NR": 3, "Limits": {3}, "Compats": {True}, "EmitMod": 64}})
     return out
 
 
